@@ -17,14 +17,15 @@ CONFIG = {
              'foreign file, stale output of another function, cached output of the same function, stale dir, stale dir '
              'with foreign content, foreign dir, 256-byte own name} x failure mode {ok, raise before write, raise after write, no create, '
              'non-JSON return, non-sanitized JSON return} x {caught, uncaught} x an injected OSError at each os.mkdir / '
-             'os.rename the call makes; monitors: path and absence of the target seen by the function, parents present, '
+             'os.rename the call makes; + nested-call family; + exception-class family (the exception leaving the user function: 16 builtin classes incl. the '
+             'library\'s own failure vocabulary, and the documented OSError of an uncaught builder query, x before/after the write x caught/propagating x build_file/subbuild: same object out); monitors: path and absence of the target seen by the function, parents present, '
              'identity of the propagated exception, normalised return value, virtual view right after the call '
              '(queries on the target and every ancestor), on-disk tree at the end of the build, rollback state if '
              'uncaught - all against the reference model in which a faulted call is a setup failure; evaluations = '
              'build_file calls judged; distinct_nontrivial = distinct (ancestor states, target state, mode, caught, '
              'fault position class)'),
     'exhaustive_layer': 'depth<=3 product of ancestor states x target states x modes x caught, incl. one fault run per mkdir/rename event',
-    'gates': ['nested_cases', 'mode:swallow', 'combos', 'fault_runs', 'fault_mkdir', 'fault_rename', 'mode:ok', 'mode:raise_before',
+    'gates': ['exc_class_cases', 'nested_cases', 'mode:swallow', 'combos', 'fault_runs', 'fault_mkdir', 'fault_rename', 'mode:ok', 'mode:raise_before',
               'mode:raise_after', 'mode:nocreate', 'mode:nonjson', 'setup_failures', 'caught', 'uncaught'],
 }
 
@@ -241,10 +242,56 @@ def nested_cases(sh, rng):
                                     break
 
 
+def exc_class_cases(sh, rng):
+    """the exception that leaves the user's function - of ANY class, including the classes the
+    library itself uses for its own conditions, and including the documented OSError of a builder query
+    the function did not catch - is the object build_file/subbuild raise; the target and the directories
+    created for it are gone: class x {before, after the write} x {caught, propagating} x {bf, sb}"""
+    from ..gen import RAISE_CLASSES
+    kinds = [('raise', c) for c in RAISE_CLASSES] + [
+        ('q', 'read_text', 'missing/in'), ('q', 'read_binary', 'missing'), ('q', 'list_dir', 'missing'),
+        ('q', 'get_size', 'missing'), ('q', 'declare_read', 'missing'), ('q', 'read_text', 'adir'),
+        ('q', 'read_binary', 'in0/below'), ('q', 'list_dir', 'in0'), ('q', 'walk', 'missing')]
+    for kind in kinds:
+        for after in (False, True):
+            for catch in (True, False):
+                for callee in ('bf', 'sb'):
+                    if kind[0] == 'raise':
+                        st = ['raise', 'F', kind[1]]
+                    else:
+                        st = ['q', kind[1], kind[2], 'M', None, 'prop']
+                    if callee == 'bf':
+                        body = ([['write', '']] if after else []) + [st] + ([] if after else [['write', '']])
+                        funcs = {'F': {'kind': 'bf', 'idx': 1, 'body': body}}
+                        call = ['bf', 'd/e/t', 'F', {'catch': catch}]
+                    else:
+                        inner = {'kind': 'bf', 'idx': 2, 'body': [['write', '']]}
+                        body = ([['bf', 'd/e/t', 'G', {'catch': False}]] if after else []) + [st]
+                        funcs = {'F': {'kind': 'sb', 'idx': 1, 'body': body}, 'G': inner}
+                        call = ['sb', 'F', {'catch': catch}]
+                    probes = [['q', 'exists', 'd/e/t', 'M'], ['q', 'is_dir', 'd/e', 'M'], ['q', 'is_dir', 'd', 'M'],
+                              ['q', 'walk', '', 'M']]
+                    program = {'funcs': funcs, 'roots': [[call] + probes]}
+                    with Scratch('x') as sc:
+                        w = World(sc)
+                        w.ext_write('in0', b'input')
+                        w.ext_mkdir('adir')
+                        for rnd in range(2):
+                            sr = w.build(program, program['roots'][0], {}, label=0)
+                            sh.evaluations += 1
+                            sh.count('exc_class_cases')
+                            sh.nt(('exc-class', kind[1], after, catch, callee, rnd))
+                            if judge(sh, w, program, sr, 'exc-class|%s|%s|after=%s' % (callee, kind[1], after)) \
+                                    or sr.divs:
+                                break
+
+
 def run_shard(sh):
     rng = random.Random((sh.seed * 1000003 + sh.idx) & 0xffffffff)
     if sh.idx % 4 == 1:
         nested_cases(sh, rng)
+    if sh.idx % 4 == 2:
+        exc_class_cases(sh, rng)
     combos = []
     for depth in (1, 2, 3):
         for anc in anc_vectors(depth):
